@@ -17,9 +17,9 @@ def anchor_patterns(prop):
     raise HarnessError("property %s not found in properties.jsonl" % prop)
 
 
-def run_monitors(ctx, res, monitors, spec_filter=None, prefixes=None):
+def run_monitors(ctx, res, monitors, spec_filter=None, prefixes=None, specs_override=None):
     tier = "thorough" if ctx.thorough else "quick"
-    sp = specmod.families(tier)
+    sp = specs_override if specs_override is not None else specmod.families(tier)
     if spec_filter is not None:
         sp = [s for s in sp if spec_filter(s)]
     k = 2 if ctx.thorough else 1
